@@ -379,7 +379,7 @@ class Interp:
             return fn(*args, **kwargs)
         if mod.split(".")[0] == "numpy" and name.split(".")[-1] in NUMPY_PROXY_SAFE:
             return fn(*args, **kwargs)
-        if (mod, name) in self.session.proxy_safe or mod.split(".")[0] in ("operator", "_operator", "itertools", "functools", "collections"):
+        if (mod, name) in self.session.proxy_safe or mod.split(".")[0] in ("operator", "_operator", "itertools", "functools", "collections", "copy"):
             return fn(*args, **kwargs)
         cur().havoc_used = True
         cur().note("external %s.%s called with symbolic arguments -> Unknown" % (mod, name))
